@@ -59,7 +59,7 @@ func cmdCheck(args []string) {
 	if s := os.Getenv("VERIF_SEED"); s != "" {
 		seed, _ = strconv.Atoi(s)
 	}
-	timeout := 20 * time.Second
+	timeout := 45 * time.Second
 	all := false
 	if *tier == "thorough" {
 		timeout = 120 * time.Second
